@@ -31,6 +31,10 @@ type Op struct {
 // Prog is a program: ops executed in order, then "return bindings".
 type Prog struct {
 	Ops []Op `json:"ops"`
+	// Partial: the native rendering, when the program fails, returns
+	// a partial Execution (what was emitted so far) together with the
+	// error, instead of (nil, err).
+	Partial bool `json:"partial,omitempty"`
 }
 
 // Outcome of running a program (model).
@@ -230,6 +234,11 @@ func (p *Prog) Native(mode NativeMode) core.Action {
 		out := p.Run(map[string]interface{}(bs))
 		switch out.Kind {
 		case "fail":
+			if p.Partial {
+				exe := core.NewExecution(bs)
+				exe.AddEmitted("partial")
+				return exe, errors.New("native action failed (partial result): " + out.Why)
+			}
 			return nil, errors.New("native action failed: " + out.Why)
 		case "null":
 			exe := core.NewExecution(nil)
